@@ -226,11 +226,12 @@ theorem tie_interval_new (a b : Rat) : Gen.Interval_new a b = mk a b := by
   unfold mk
   split <;> rfl
 
-/-- `Interval.__round__(n)` of the current source: both bounds rounded (`rnd` = `round(·, n)`), handed to the constructor. -/
-theorem tie_round (rnd : Rat → Rat) (i : I) (n : Option Int) : Gen.Interval_round rnd i n = round rnd i := by
+/-- `Interval.__round__(n)` of the current source: both bounds rounded with the SAME `n` (`rnd n` = `round(·, n)`), handed to the constructor. -/
+theorem tie_round (rnd : Option Int → Rat → Rat) (i : I) (n : Option Int) :
+    Gen.Interval_round rnd i n = round (rnd n) i := by
   unfold Gen.Interval_round round
   rw [tie_interval_new]
-  all_goals (cases mk (rnd i.lo) (rnd i.hi) <;> rfl)
+  all_goals (cases mk (rnd n i.lo) (rnd n i.hi) <;> rfl)
 
 theorem tie_dunder_contains (i : I) (x : Rat) : Gen.Interval_dunder_contains i x = contains i x := rfl
 
